@@ -511,7 +511,8 @@ pub fn det(args: &[String]) -> Value {
                 continue;
             }
             let outcome = json!({"parse": r.parse, "static": r.static_type, "status": r.status,
-                "value": r.value, "error": if r.status == "value" { Value::Null } else { json!(r.detail) }, "log": r.log});
+                "value": r.value, // a rejection is identified by its error kind: the message prints types, whose member order may vary
+                "error": if r.status == "value" { Value::Null } else if r.status == "rejected" { json!(r.parse) } else { json!(r.detail) }, "log": r.log});
             writeln!(out, "{}", json!({"id": case["id"], "run": format!("{tag}{rep}"), "outcome": outcome.to_string(), "o": outcome})).unwrap();
             n += 1;
         }
